@@ -90,12 +90,17 @@ class Conn:
         self.bound = False
         self.stalled = False        # the peer does not read: drain() suspends
         self.paused = False
+        self.held = b''
 
     def stall(self, on):
         self.stalled = on
-        if not on and self.paused and self.protocol is not None:
-            self.paused = False
-            self.protocol.resume_writing()
+        if not on:
+            held, self.held = self.held, b''
+            if held and not self.broken and not self.closed:
+                self.deliver(held)
+            if self.paused and self.protocol is not None:
+                self.paused = False
+                self.protocol.resume_writing()
 
     def on_write(self, data):
         t = self.smsc.loop.time()
@@ -103,6 +108,13 @@ class Conn:
         self.writes.append(data)
         if self.broken:
             return
+        if self.stalled:
+            # the peer is not reading: the octets wait in the transport's buffer
+            self.held += data
+            return
+        self.deliver(data)
+
+    def deliver(self, data):
         self.buf += data
         while len(self.buf) >= 16:
             ln = struct.unpack('!I', self.buf[:4])[0]
